@@ -96,31 +96,39 @@ def runCase (j : Json) : Except String Json := do
         let oi ← o.getInt?
         let n ← n.getInt?
         -- operations that are not number assignments (tools/vlib/c04lib.py: NEUTRAL)
-        if ks = "relink" then pure (Sum.inl Edit.relink)
-        else if ks = "geom+" ∨ ks = "geom-" then pure (Sum.inl (Edit.addLeaf oi.toNat { isCell := false, target := n.toNat }))
-        else if ks = "geom#" then pure (Sum.inl (Edit.addLeaf oi.toNat { isCell := true, target := n.toNat }))
-        else if ks = "reappend:cell" then pure (Sum.inr Kind.cell)
-        else if ks = "reappend:surf" then pure (Sum.inr Kind.surf)
-        else if ks = "reappend:tr" then pure (Sum.inr Kind.tr)
+        -- "write": write_to_file in the middle of the history (an observation: the file of that moment is reported)
+        if ks = "write" then pure none
+        else if ks = "relink" then pure (some (Sum.inl Edit.relink))
+        else if ks = "geom+" ∨ ks = "geom-" then pure (some (Sum.inl (Edit.addLeaf oi.toNat { isCell := false, target := n.toNat })))
+        else if ks = "geom#" then pure (some (Sum.inl (Edit.addLeaf oi.toNat { isCell := true, target := n.toNat })))
+        else if ks = "reappend:cell" then pure (some (Sum.inr Kind.cell))
+        else if ks = "reappend:surf" then pure (some (Sum.inr Kind.surf))
+        else if ks = "reappend:tr" then pure (some (Sum.inr Kind.tr))
         else
         let kind ← kindOf ks
         -- universes are addressed by the number they have in the original file
         let obj ← if kind = .univ then
             (match lookup p0.univs oi with | some u => pure u | none => throw s!"no universe {oi}")
           else pure oi.toNat
-        pure (Sum.inl (Edit.num ({ kind, obj, n } : MontePyVerif.Renumber.Op)))
+        pure (some (Sum.inl (Edit.num ({ kind, obj, n } : MontePyVerif.Renumber.Op))))
       | _ => throw "op")
-    let (p, outs) := ops.foldl (fun (acc : Prob × List String) op =>
-      let r := match op with
-        | Sum.inl e => stepE acc.1 e
-        | Sum.inr k => reappendLast acc.1 k
-      (r.1, outName r.2 :: acc.2)) (p0, [])
+    -- the model's history with writes (Model/Renumber.lean: stepW / runW): state and files written so far
+    let (pw, outs) := ops.foldl (fun (acc : (Prob × List WFile) × List String) op =>
+      match op with
+      | none => (stepW acc.1 none, "ok" :: acc.2)
+      | some (Sum.inl e) => (stepW acc.1 (some e), outName (stepE acc.1.1 e).2 :: acc.2)
+      | some (Sum.inr k) =>
+        let r := reappendLast acc.1.1 k
+        ((r.1, acc.1.2), outName r.2 :: acc.2)) ((p0, []), [])
+    let p := pw.1
+    let mids := pw.2.map fileJ
     -- per object in the order of the original cards (add_cell_children_to_problem may have sorted the collections)
     let nums (k : Kind) : Json := toJson ((p0.coll k).objs.map (p.coll k).num)
     return Json.mkObj [
       ("link", "ok"), ("wellFormed", toJson wf.wellFormedB), ("outs", toJson outs.reverse),
       ("numbers", Json.mkObj [("cell", nums .cell), ("surf", nums .surf), ("mat", nums .mat), ("tr", nums .tr),
         ("univ", Json.arr (p0.univs.objs.map (fun u => Json.arr #[toJson (p0.univs.num u), toJson (p.univs.num u)])).toArray)]),
+      ("mids", Json.arr mids.toArray),
       ("file", fileJ (write p))]
 
 partial def loop (h : IO.FS.Stream) : IO Unit := do
